@@ -33,6 +33,14 @@ def run(ctx):
         ctx.drift("the function-local statics of Integrate_MC_Vegas (%s) differ from the objects of spec/VegasStatics.tla (%s)" % (sorted(names - modelled), sorted(modelled - names)))
     elif not names:
         ctx.drift("could not locate the static declarations of Integrate_MC_Vegas in the source")
+    # inventory of mutable state that outlives a call in Integration.cpp: everything static and not const must be an object of the models
+    # (Vegas' statics: VegasStatics.tla; Miser_iran: MonteCarlo.tla RESET); anything else is unmodelled history
+    stat_lines = [ln.strip() for ln in src.splitlines() if re.match(r"\s*(static|thread_local)\b", ln) and not re.match(r"\s*static\s+const\b", ln)
+                  and "(" not in ln.split("=")[0].replace("(MXDIM)", "").replace("(NDMX)", "").replace("(NDMX, MXDIM)", "").replace("(MXDIM, NDMX)", "")]
+    inside_vegas = m.group(1) if m else ""
+    extra = [ln for ln in stat_lines if ln not in inside_vegas and not ln.startswith("static int Miser_iran")]
+    if extra:
+        ctx.drift("Integration.cpp declares mutable static state that the models of C14 do not know: %s" % extra[:4])
     exe = ctx.harness("c14")
     trace = os.path.join(ctx.work, "trace.ndjson")
     rc, out, err = vf.run_exe([exe, "record", str(ctx.seed), ctx.tier, trace], timeout=3300)
